@@ -261,6 +261,13 @@ fn c14_panic_sweep(c: &mut Ctx, a: W, b: W) {
             if valid_ref(r.0, r.1) {
                 c.viol("powf", "neg_base_nonint", &ins, &outs(r), "negative base with non-integer exponent must be invalid".into());
             }
+        } else if va.sign() < 0 && vb.is_integer() && finite(r) && r.0 != 0.0 {
+            // sign given by the parity of the integer exponent, whatever its magnitude
+            c.count("powf_negative_base_integer_exponent");
+            let want_neg = vb.is_odd_integer();
+            if (r.0 < 0.0) != want_neg {
+                c.viol("powf", "neg_base_sign", &ins, &outs(r), format!("negative base, integer exponent ({}): wrong sign", if want_neg { "odd" } else { "even" }));
+            }
         }
     }
 }
@@ -311,6 +318,22 @@ pub fn c14(c: &mut Ctx) {
             _ => any_valid(&mut c.rng),
         };
         c14_panic_sweep(c, a, b);
+        // negative base close to -1 with integer exponents of any magnitude (parity may sit in the low word)
+        if i % 16 == 1 {
+            let k = c.rng.range(20, 50);
+            let base = (-(1.0 + pow2(-k) * (1.0 + c.rng.below(7) as f64)), 0.0);
+            let j = c.rng.range(1, k + 8);
+            let small = c.rng.range(-3, 3) as f64;
+            let yv = match c.rng.below(4) {
+                0 => (pow2(j), small),
+                1 => (-pow2(j), small),
+                2 => (pow2(j) + small, 0.0),
+                _ => (c.rng.range(-2000, 2000) as f64, 0.0),
+            };
+            if valid_ref(yv.0, yv.1) && valid_ref(base.0, base.1) {
+                c14_panic_sweep(c, base, yv);
+            }
+        }
         // integer exponent with a tiny low word is still "non-integer"
         if i % 64 == 0 {
             let nb = (c.rng.range(-9, 9) as f64, pow2(-80) * if c.rng.coin() { 1.0 } else { -1.0 });
